@@ -3,15 +3,15 @@
 EXTENDS LifeMech, Json, IOUtils, TLCExt, SequencesExt
 
 Traces == JsonDeserialize(IOEnv.TRACE_FILE)
-VARIABLES tid, l, status, expect, order, nonlifo, fails, m, mrecv
-vars == <<tid, l, status, expect, order, nonlifo, fails, m, mrecv>>
+VARIABLES tid, l, status, expect, order, nonlifo, fails, m, mrecv, incall
+vars == <<tid, l, status, expect, order, nonlifo, fails, m, mrecv, incall>>
 T == Traces[tid]
 S == T.steps[l]
 
 Init == /\ tid \in 1..Len(Traces) /\ l = 1
         /\ status = [p \in Probes |-> "new"] /\ expect = [p \in Probes |-> <<>>]
         /\ order = <<>> /\ nonlifo = FALSE /\ fails = <<>>
-        /\ m = MInit /\ mrecv = [p \in Probes |-> 0]
+        /\ m = MInit /\ mrecv = [p \in Probes |-> 0] /\ incall = FALSE
         /\ TLCSet(tid, <<0, <<>>>>)
 
 RecSet(r) == { <<r[i][1], r[i][2]>> : i \in DOMAIN r }
@@ -45,14 +45,30 @@ MechExplains(m2, mr2) ==
   /\ (m2.cur # None => S.obs.cur.ids = m2.cur)
   /\ \A p \in Probes : Len(S.obs.recv[p]) = mr2[p]
   /\ \A fn \in Fns : S.obs.orig[fn] = IsOrig(m2, fn) /\ S.obs.cnt[fn] = m2.cnt[fn]
-Rec(clause) == [line |-> l, clause |-> clause[1], who |-> clause[2], nonlifo |-> nonlifo',
+Rec(clause) == [line |-> l, clause |-> clause[1], who |-> clause[2], nonlifo |-> nonlifo', incall |-> incall',
                 op |-> S.op[1], mech |-> MechExplains(m', mrecv')]
 AddAll(f, cs) == f \o SetToSeq({Rec(c) : c \in cs})
 
 Step ==
   /\ l <= Len(T.steps) /\ l' = l + 1 /\ UNCHANGED tid
+  /\ incall' = (incall \/ S.op[1] = "calld")
   /\ LET op == S.op IN
-     CASE op[1] = "act" ->
+     CASE op[1] = "calld" ->
+            \* ["calld", v, p]: f(v); where f calls g, probe p (active) is deactivated; the call then finishes
+            LET p == op[3]
+                v == op[2]
+                st2 == [status EXCEPT ![p] = "done"]
+                ex2 == [q \in Probes |-> IF status[q] # "active" THEN expect[q]
+                                          ELSE expect[q] \o BeforeG(q, v) \o (IF q = p THEN <<>> ELSE InG(q, v))]
+                m1 == MDeactivate(m, p)
+            IN /\ status' = st2 /\ expect' = ex2
+               /\ nonlifo' = (nonlifo \/ (order # <<>> /\ order[Len(order)] # p))
+               /\ order' = SelectSeq(order, LAMBDA q : q # p)
+               /\ m' = MDeactInCallEnd(m, p)
+               /\ mrecv' = [q \in Probes |-> mrecv[q] + (IF Hears(m, q) THEN Len(BeforeG(q, v)) ELSE 0) + (IF Hears(m1, q) THEN Len(InG(q, v)) ELSE 0)]
+               /\ fails' = AddAll(fails, Clauses(st2, ex2) \cup
+                                         (IF S.outcome = "ok" /\ S.ret = RetOf("f", v) THEN {} ELSE {<<"Return", "f">>}))
+       [] op[1] = "act" ->
             LET p == op[2]
                 should == status[p] = "new" /\ Valid(p)
                 okOutcome == IF should THEN S.outcome = "ok"
